@@ -42,7 +42,7 @@ class VerifyThreshold(Obligation):
             g={'made_by':z3.BitVec('made_by_%d'%j,8),'intact':z3.Bool('intact_%d'%j),'over':z3.Bool('over_%d'%j)}
             run.ghost['sigs'][j]=g
             sigs.append(b.signature(pool_keyid(lab) if lab<nk else UNKNOWN_KEYID,value=bytes([j])))
-        for j in range(ns): run.solver.add(z3.ULE(run.ghost['sigs'][j]['made_by'],nk))
+        for j in range(ns): run.add(z3.ULE(run.ghost['sigs'][j]['made_by'],nk))
         meta=b.wrap_link(b.link('step',materials=[(b.vpath('a'),b.target_description([1,2]))],command=['x']))
         mb=b.metablock(meta,sigs)
         thr=Int(32,False,z3.BitVec('threshold',32))
